@@ -28,7 +28,7 @@ Why(u) ==
     LET e == Expected(u) O == Rng(u.obs) IN
     IF e # "same" /\ \E o \in O : o.outcome # e
       THEN "outcome differs from the specification: expected " \o e \o ", got " \o (CHOOSE o \in O : o.outcome # e).outcome
-    ELSE IF \E a, b \in O : a.outcome # b.outcome
+    ELSE IF \E a, b \in O : a.api = b.api /\ a.outcome # b.outcome
       THEN "outcome depends on the textual order"
     ELSE IF \E a, b \in O : a.api = b.api /\ a.digest # b.digest
       THEN "results depend on the textual order"
